@@ -7,11 +7,12 @@ Driver for C17. One case =
 
 `<ann>` = `int|float|str|bool|datetime | (cls i) | (enum i) | (opt typing|unionNone|noneFirst|pipe a) |
 (cont list|set|tuple|sequence|blist|bset|btuple a) | (type a) | (fwd a) | (union a b T|F)`;
-`<op>` = `(q d k) | (render d T|F) | (copy d) | (sub d T|F)`.
-Further items (`(future b)`, `(mods n)`, `(enums n)`) only steer how the harness renders the Python source.
+`<op>` = `(q d k) | (acc d c k) | (render d T|F) | (copy d) | (sub d T|F)`.
+Further items (`(future b)`, `(mods n)`, `(enums n)`, `(final b)` = order in which the accessors are read at the end) only steer how the harness renders the Python source.
 
 Observation (the same text is produced from the real `ClassDiagram` by harness/props/c17.py):
-`N[nodes] I[base>sub] A[owner.field>target] F[owner.field:<flags>] V[changes after op 1|…]`, every list sorted.
+`N[nodes] I[base>sub] A[owner.field>target] F[owner.field:<flags>] V[changes after op 1|…] R[diagrams whose
+accessors do not report their own graph, after the run]`, every list sorted.
 -/
 namespace KrroodVerif.Drive.C17
 open KrroodVerif.CD
@@ -66,6 +67,7 @@ def parseClass : Sexp → Option ClassDef
 
 def parseOp : Sexp → Option Op
   | .list [.atom "q", d, k] => do pure (.query (← d.asNat?) (← k.asNat?))
+  | .list [.atom "acc", d, c, k] => do pure (.access (← d.asNat?) (← c.asNat?) (← k.asNat?))
   | .list [.atom "render", d, b] => do pure (.render (← d.asNat?) (← b.asBool?))
   | .list [.atom "copy", d] => do pure (.copy (← d.asNat?))
   | .list [.atom "sub", d, b] => do pure (.sub (← d.asNat?) (← b.asBool?))
@@ -105,6 +107,10 @@ def showChanges (chs : List (List (Nat × Option Graph))) : String :=
   "V[" ++ "|".intercalate (chs.map fun ch =>
     ";".intercalate (ch.map fun p => s!"d{p.1}=" ++ (match p.2 with | some g => showGraph g | none => "gone"))) ++ "]"
 
+/-- the diagrams whose accessors do not report their own graph (always none in the model: `C17_accessors`) -/
+def showReports (rs : List (Nat × List Edge)) : String :=
+  "R[" ++ ";".intercalate (rs.map fun p => s!"d{p.1}=I" ++ showEdgesI ⟨[], p.2⟩ ++ " A" ++ showEdgesA ⟨[], p.2⟩) ++ "]"
+
 def showFields (w : World) (nodes : List Nat) (fl : Ann → Flags) (ep : Ann → Leaf) : String :=
   "F" ++ showList (sortStrings (nodes.flatMap fun c => (w.publicFields c).map fun f => showField c f (fl f.ann) (ep f.ann)))
 
@@ -112,11 +118,13 @@ def showFields (w : World) (nodes : List Nat) (fl : Ann → Flags) (ep : Ann →
 def observe (q : Quirks) (w : World) (order : List Nat) (ops : List Op) : String :=
   let g := build q w order
   showGraph g ++ " " ++ showFields w g.nodes (flags q) (endpoint q) ++ " " ++ showChanges (changes q (Store.init g) ops)
+    ++ " " ++ showReports (misreported (runOps q (Store.init g) ops))
 
 /-- the observation the property demands -/
 def observeSpec (w : World) (order : List Nat) (ops : List Op) : String :=
   let g := specBuild w order
   showGraph g ++ " " ++ showFields w g.nodes specFlags specEndpoint ++ " " ++ showChanges (specChanges ops)
+    ++ " " ++ showReports []
 
 def anyPublicField (w : World) (order : List Nat) (p : Ann → Bool) : Bool :=
   (nodesOf order).any fun c => (w.publicFields c).any fun f => p f.ann
